@@ -13,10 +13,41 @@ package smtext
 //@   ensures len(s) == 1 && s[0] == '*' ==> result.0 == 255
 //@   ensures len(s) == 1 && s[0] != '*' ==> result.0 == s[0]
 
-// ReadNCBI: never a partial matrix; no panic for arbitrary input (C11).
+// ReadNCBI (C20, C11): never a partial matrix, no panic for arbitrary input; and the table it recovers, line by line
+// (specs/45smtext.spec): L = the Scanner's lines over r, h = the header line (first line that is neither empty nor a
+// comment and has a token), the tokens of a line = the matches of \S+ (wsN, wsF).
 //@ func ReadNCBI
 //@   props C20 C11
-//@   thin
+//@   let L := scanlines(r)
+//@   let N := scann(r)
+//@   let h := ncbiH(L, N)
+//@   let nch := h < N ? wsN(L[h]) : 0
 //@   ensures result.1 != nil ==> isnil(result.0)
+//@   ensures result.1 == nil ==> !isnil(result.0)
+// on success every column label is one character and every row after the header has a one-character label and nch numbers
+//@   ensures @C20 result.1 == nil && h < N ==> forall i int :: {wsF(L[h], i)} 0 <= i && i < nch ==> len(wsF(L[h], i)) == 1
+//@   ensures @C20 result.1 == nil ==> forall k int :: {L[k]} h < k && k < N && !nskip(L, k) ==> rowOK(L, k, nch)
+// the matrix holds exactly the entries of the rows (for a pair that occurs twice, the later entry)
+//@   ensures @C20 result.1 == nil ==> forall k int, i int :: {nkey(L, h, k, i)} h < k && !nskip(L, k) && 0 <= i && i < nch && k < N ==> has(result.0, nkey(L, h, k, i))
+//@   ensures @C20 result.1 == nil ==> forall key int :: {has(result.0, key)} has(result.0, key) ==> exists k int, i int :: h < k && !nskip(L, k) && 0 <= i && i < nch && k < N && key == nkey(L, h, k, i) && result.0[key] == nval(L, k, i)
+//@   ensures @C20 result.1 == nil ==> forall k int, i int :: {nkey(L, h, k, i)} h < k && !nskip(L, k) && 0 <= i && i < nch && k < N && (forall k2 int, i2 int :: {nkey(L, h, k2, i2)} h < k2 && !nskip(L, k2) && 0 <= i2 && i2 < nch && k2 < N && (k2 > k || (k2 == k && i2 > i)) ==> nkey(L, h, k2, i2) != nkey(L, h, k, i)) ==> result.0[nkey(L, h, k, i)] == nval(L, k, i)
 //@   loop 1
-//@     invariant true
+//@     let p := sc.pos
+//@     invariant 0 <= p && p <= N && !isnil(m) && sc.lines == L && sc.n == N
+//@     invariant isnil(chars) ==> forall j int :: {L[j]} 0 <= j && j < p ==> !hdrP(L, j)
+//@     invariant !isnil(chars) ==> h < p && len(chars) == wsN(L[h]) && forall i int :: {wsF(L[h], i)} 0 <= i && i < len(chars) ==> len(wsF(L[h], i)) == 1 && chars[i] == xch(wsF(L[h], i))
+//@     invariant forall k int :: {L[k]} h < k && k < p && !nskip(L, k) ==> rowOK(L, k, len(chars))
+//@     invariant @C20 forall k int, i int :: {nkey(L, h, k, i)} h < k && !nskip(L, k) && 0 <= i && i < len(chars) && k < p ==> has(m, nkey(L, h, k, i))
+//@     invariant @C20 forall key int :: {has(m, key)} has(m, key) ==> exists k int, i int :: h < k && !nskip(L, k) && 0 <= i && i < len(chars) && k < p && key == nkey(L, h, k, i) && m[key] == nval(L, k, i)
+//@     invariant @C20 forall k int, i int :: {nkey(L, h, k, i)} h < k && !nskip(L, k) && 0 <= i && i < len(chars) && k < p && (forall k2 int, i2 int :: {nkey(L, h, k2, i2)} h < k2 && !nskip(L, k2) && 0 <= i2 && i2 < len(chars) && k2 < p && (k2 > k || (k2 == k && i2 > i)) ==> nkey(L, h, k2, i2) != nkey(L, h, k, i)) ==> m[nkey(L, h, k, i)] == nval(L, k, i)
+//@   loop 2
+//@     invariant len(chars) == K && (K > 0 ==> !isnil(chars)) && (K == 0 ==> isnil(chars))
+//@     invariant forall i int :: {wsF(row, i)} 0 <= i && i < K ==> len(wsF(row, i)) == 1 && chars[i] == xch(wsF(row, i))
+//@   loop 3
+//@     invariant 0 <= K && K <= len(chars) && !isnil(m)
+//@     invariant forall i int :: {wsF(row, i + 1)} 0 <= i && i < K ==> pfloatOK(wsF(row, i + 1))
+//@     let p := sc.pos
+//@     invariant @C20 K < len(chars) ==> nkey(L, h, p - 1, K) == key2(c, chars[K]) && nval(L, p - 1, K) == pfloat(wsF(row, K + 1))
+//@     invariant @C20 forall k int, i int :: {nkey(L, h, k, i)} h < k && !nskip(L, k) && 0 <= i && i < len(chars) && (k < p - 1 || (k == p - 1 && i < K)) ==> has(m, nkey(L, h, k, i))
+//@     invariant @C20 forall key int :: {has(m, key)} has(m, key) ==> exists k int, i int :: h < k && !nskip(L, k) && 0 <= i && i < len(chars) && (k < p - 1 || (k == p - 1 && i < K)) && key == nkey(L, h, k, i) && m[key] == nval(L, k, i)
+//@     invariant @C20 forall k int, i int :: {nkey(L, h, k, i)} h < k && !nskip(L, k) && 0 <= i && i < len(chars) && (k < p - 1 || (k == p - 1 && i < K)) && (forall k2 int, i2 int :: {nkey(L, h, k2, i2)} h < k2 && !nskip(L, k2) && 0 <= i2 && i2 < len(chars) && (k2 < p - 1 || (k2 == p - 1 && i2 < K)) && (k2 > k || (k2 == k && i2 > i)) ==> nkey(L, h, k2, i2) != nkey(L, h, k, i)) ==> m[nkey(L, h, k, i)] == nval(L, k, i)
